@@ -1,6 +1,7 @@
 import VermouthModel.C13_Reader
 import VermouthModel.C13_Mapping
 import VermouthModel.C13_Backmap
+import VermouthModel.C13_Dir
 import Generated.C13Tables
 open Proto C13
 
@@ -60,7 +61,7 @@ def ffTab : List Entry := C13.Gen.ffKeys.map fun (p, m, c) => { path := p, metho
 def itpTab : List Entry := C13.Gen.itpKeys.map fun (p, m, c) => { path := p, method := m, ctype := c }
 def itpIdx : List (String × List Idx) :=
   C13.Gen.itpAtomIdxs.map fun (s, l) => (s, l.map fun (k, a, b) =>
-    if k = 0 then Idx.pos a else if k = 1 then Idx.slice a (some b) else Idx.slice a none)
+    if k = 0 then Idx.pos a else if k = 1 then Idx.slice a (some b) else if k = 2 then Idx.slice a none else Idx.bad)
 
 def lineOf (t : Tok) : Option Line := do
   match ← t.list? with
@@ -78,6 +79,29 @@ def encBody (b : Nat × List (Path × String)) : String :=
 
 def mapParams : MParams (List (Path × String)) :=
   { T := C13.Gen.mapKeys, handle := fun p t c => some (c ++ [(p, t)]), fresh := [] }
+
+/-! ### directories -/
+
+def dirEntryOf (t : Tok) : Option C13.Dir.DirEntry := do
+  match ← t.list? with
+  | [n, Tok.int d, ls] => pure { name := ← n.str?, isDir := d != 0, lines := ← strs? ls }
+  | _ => none
+
+def encVars (v : C13.Dir.Vars) : String :=
+  encList (v.map fun kv => encList [encStr kv.1, encStr (reprJ kv.2)])
+
+def encFF (ff : C13.Dir.FF) : String :=
+  encList [encDump { blocks := ff.blocks, links := ff.links, mods := ff.mods }, encVars ff.vars]
+
+partial def treeOf (t : Tok) : Option C13.Dir.Tree := do
+  match ← t.list? with
+  | [Tok.int 0, n, ls] => pure (.file (← n.str?) (← strs? ls))
+  | [Tok.int 1, n, ch] => pure (.dir (← n.str?) (← (← ch.list?).mapM treeOf))
+  | _ => none
+
+def encRKey : C13.Dir.RKey → String
+  | .name s => encList [encNat 0, encStr s]
+  | .names l => encList [encNat 1, encList (l.map encStr)]
 
 def handle (_ : Unit) (toks : List Tok) : Unit × String :=
   let r : Option String :=
@@ -145,6 +169,33 @@ def handle (_ : Unit) (toks : List Tok) : Unit × String :=
         let ls ← (← ls.list?).mapM lineOf
         match mapRun mapParams ls with
         | some s => pure (encList (s.out.map encBody))
+        | none => pure "error"
+    | [Tok.str "ffdir", dir, name, ls] => do
+        -- ForceField(directory, name) on a directory listing (os.scandir order)
+        let dir ← dir.optStr?
+        let name ← name.optStr?
+        let ls ← (← ls.list?).mapM dirEntryOf
+        let parsers := C13.Gen.ffDirParsers
+        if dir.isSome && !C13.Dir.modelled parsers ls then pure "unmodelled"
+        else match C13.Dir.ffInit C13.Gen.natoms ffTab parsers (dir.map fun d => (d, ls)) name with
+          | some (n, ff) =>
+            let order := if dir.isSome then C13.Dir.readOrder (parsers.map (·.1)) ls else []
+            pure (encList [encStr n, encList (order.map fun e => encStr e.name), encFF ff])
+          | none => pure "error"
+    | [Tok.str "splitext", n] => do
+        let n ← n.str?
+        pure (encList [encStr (C13.Dir.splitExt n), encStr (C13.Dir.basename n)])
+    | [Tok.str "mapdir", blib, mlib, tree] => do
+        let blib ← C13.Backmap.libOf blib
+        let mlib ← C13.Mapping.libOf mlib
+        let ch ← (← tree.list?).mapM treeOf
+        let readMap := fun (ls : List String) => (C13.Backmap.readBackmap blib ls).map fun outs =>
+          outs.map fun o => ((some o.fromFF, some o.toFF, C13.Dir.RKey.name o.name) : C13.Dir.MKey)
+        let readMapping := fun (ls : List String) => (C13.Mapping.readMapping mlib ls).map fun es =>
+          (C13.Mapping.collapse es).map fun k => ((k.1.1, k.1.2.1, C13.Dir.RKey.names k.1.2.2) : C13.Dir.MKey)
+        match C13.Dir.readMapDir readMap readMapping ch with
+        | some rows => pure (encList (rows.map fun (k, v) =>
+            encList [encOptStr k.1, encOptStr k.2.1, encRKey k.2.2, encStr v.1, encNat v.2]))
         | none => pure "error"
     | Tok.str "mapping" :: args => C13.Mapping.handleOp args
     | Tok.str "backmap" :: args => C13.Backmap.handleOp args
